@@ -5,6 +5,8 @@ package profile
 func init() {
 	vRegister("VerifC03Merge", VerifC03Merge)
 	vRegister("VerifC03Headers", VerifC03Headers)
+	vRegister("VerifC03MergeLabels", VerifC03MergeLabels)
+	vRegister("VerifC03Compact", VerifC03Compact)
 	vRegister("VerifC03NilPeriodType", VerifC03NilPeriodType)
 }
 
@@ -66,8 +68,64 @@ func vLocSame(a, b *Location) bool {
 	return r
 }
 
+// vLabelsSame compares the (concrete) label sets of two samples.
+func vLabelsSame(a, b *Sample) bool {
+	if len(a.Label) != len(b.Label) || len(a.NumLabel) != len(b.NumLabel) {
+		return false
+	}
+	for k, va := range a.Label {
+		vb, ok := b.Label[k]
+		if !ok || len(va) != len(vb) {
+			return false
+		}
+		for i := range va {
+			if va[i] != vb[i] {
+				return false
+			}
+		}
+	}
+	for k, va := range a.NumLabel {
+		vb, ok := b.NumLabel[k]
+		if !ok || len(va) != len(vb) {
+			return false
+		}
+		for i := range va {
+			if va[i] != vb[i] {
+				return false
+			}
+		}
+		ua, ub := a.NumUnit[k], b.NumUnit[k]
+		if len(ua) != len(ub) {
+			return false
+		}
+		for i := range ua {
+			if ua[i] != ub[i] {
+				return false
+			}
+		}
+	}
+	return true
+}
+
+var vLabelPool = []map[string][]string{
+	nil,
+	{"a": {"b", "c", "d"}},
+	{"a": {"b"}, "c": {"d"}},
+	{"a": {"b", "c"}, "d": {}},
+}
+
+var vNumLabelPool = []struct {
+	v map[string][]int64
+	u map[string][]string
+}{
+	{nil, nil},
+	{map[string][]int64{"n": {1, 2}}, nil},
+	{map[string][]int64{"n": {1}, "m": {2}}, nil},
+	{map[string][]int64{"n": {1, 2}}, map[string][]string{"n": {"kb", "b"}}},
+}
+
 func vStackSame(a, b *Sample) bool {
-	if len(a.Location) != len(b.Location) {
+	if len(a.Location) != len(b.Location) || !vLabelsSame(a, b) {
 		return false
 	}
 	r := true
@@ -90,6 +148,14 @@ func VerifC03Merge() {
 		b.Mapping[0].BuildID = "id2"
 	case 2:
 		b.Function[1].Name = "g1"
+	}
+	// label sets of the two first samples (same frames are only the same stack with the same labels)
+	if vBound("c03.labels", 0) == 1 {
+		la, lb := vChoice("labels.a", len(vLabelPool)), vChoice("labels.b", len(vLabelPool))
+		a.Sample[0].Label, b.Sample[0].Label = vLabelPool[la], vLabelPool[lb]
+		na, nb := vChoice("numlabels.a", len(vNumLabelPool)), vChoice("numlabels.b", len(vNumLabelPool))
+		a.Sample[0].NumLabel, a.Sample[0].NumUnit = vNumLabelPool[na].v, vNumLabelPool[na].u
+		b.Sample[0].NumLabel, b.Sample[0].NumUnit = vNumLabelPool[nb].v, vNumLabelPool[nb].u
 	}
 	vAssume(a.CheckValid() == nil)
 	vAssume(b.CheckValid() == nil)
@@ -152,6 +218,75 @@ func VerifC03Merge() {
 	c1 := m.Compact()
 	c2 := c1.Compact()
 	vAssert(len(c1.Sample) == len(c2.Sample) && len(c1.Location) == len(c2.Location) && len(c1.Function) == len(c2.Function) && len(c1.Mapping) == len(c2.Mapping), "C03.compact.idem: compacting twice differs from compacting once")
+}
+
+// VerifC03MergeLabels: samples on the same frames are the same stack only if
+// their string and numeric label sets (values, multiplicity, units) are equal.
+func VerifC03MergeLabels() {
+	mk := func(tag string) *Profile {
+		f := &Function{ID: 1, Name: "f"}
+		l := &Location{ID: 1, Address: 0x10, Line: []Line{{Function: f, Line: 1}}}
+		la, na := vChoice(tag+"labels", len(vLabelPool)), vChoice(tag+"numlabels", len(vNumLabelPool))
+		s := &Sample{Location: []*Location{l}, Value: []int64{vInt64(tag + "v")}, Label: vLabelPool[la], NumLabel: vNumLabelPool[na].v, NumUnit: vNumLabelPool[na].u}
+		vAssume(s.Value[0] > 0)
+		vAssume(s.Value[0] < 1<<40)
+		return &Profile{SampleType: []*ValueType{{Type: "samples", Unit: "count"}}, PeriodType: &ValueType{}, Function: []*Function{f}, Location: []*Location{l}, Sample: []*Sample{s}}
+	}
+	a, b := mk("a."), mk("b.")
+	sa, sb := a.Sample[0], b.Sample[0]
+	m, err := Merge([]*Profile{a, b})
+	if err != nil {
+		vAssert(false, "C03.labels.err: merge failed")
+		return
+	}
+	same := vLabelsSame(sa, sb)
+	if same {
+		vAssert(len(m.Sample) == 1 && m.Sample[0].Value[0] == sa.Value[0]+sb.Value[0], "C03.labels.split: samples with equal frames and labels were not summed")
+	} else {
+		vAssert(len(m.Sample) == 2, "C03.labels.collide: samples whose label sets differ were merged into one")
+		if len(m.Sample) == 2 {
+			vAssert(vLabelsSame(m.Sample[0], sa) && vLabelsSame(m.Sample[1], sb) && m.Sample[0].Value[0] == sa.Value[0] && m.Sample[1].Value[0] == sb.Value[0], "C03.labels.altered: labels or values of distinct samples were altered")
+		}
+	}
+	vObserve(len(m.Sample))
+}
+
+// VerifC03Compact: compacting one profile merges its duplicate stacks, drops
+// stacks whose values cancel together with everything only they refer to, and
+// is idempotent.
+func VerifC03Compact() {
+	p := vSmallProfile("", -1, 1)
+	// a third sample on the same stack as the first
+	dup := &Sample{Location: p.Sample[0].Location, Value: []int64{vInt64("dupv")}}
+	p.Sample = append(p.Sample, dup)
+	for _, s := range p.Sample {
+		vAssume(s.Value[0] > -(1 << 40))
+		vAssume(s.Value[0] < 1<<40)
+	}
+	vAssume(p.CheckValid() == nil)
+	v0, v1, v2 := p.Sample[0].Value[0], p.Sample[1].Value[0], dup.Value[0]
+	c := p.Compact()
+	vReach("C03.compact:done")
+	vAssert(c.CheckValid() == nil, "C03.compact.valid: compacted profile invalid")
+	var total int64
+	for _, s := range c.Sample {
+		total += s.Value[0]
+		vAssert(s.Value[0] != 0, "C03.compact.zero: a stack whose values cancel to zero survives compaction")
+	}
+	vAssert(total == v0+v1+v2, "C03.compact.total: total not conserved by compaction")
+	want := vB2I(v0+v2 != 0) + vB2I(v1 != 0)
+	vAssert(int64(len(c.Sample)) == want, "C03.compact.count: compaction did not merge duplicate stacks / drop cancelled ones")
+	// only what the remaining samples use is kept
+	used := map[*Location]bool{}
+	for _, s := range c.Sample {
+		for _, l := range s.Location {
+			used[l] = true
+		}
+	}
+	vAssert(len(c.Location) == len(used), "C03.compact.gc: locations that no remaining sample uses were kept")
+	c2 := c.Compact()
+	vAssert(len(c2.Sample) == len(c.Sample) && len(c2.Location) == len(c.Location) && len(c2.Function) == len(c.Function) && len(c2.Mapping) == len(c.Mapping), "C03.compact.idem: compacting twice differs from compacting once")
+	vObserve(len(c.Sample), len(c.Location), len(c.Function))
 }
 
 // VerifC03Headers: header combination rules and aliasing of header objects.
